@@ -680,9 +680,18 @@ fn p11(p: &mut ProbeReport, r: &mut Rng, budget: usize) {
             let k = r.below(scn.recs.len());
             scn.recs[k].1 = format!("{} {}", wacc, scn.recs[k].1);
         }
+        // title-case digraphs: not upper-case, yet they have a lower-case form; re-casing ANOTHER letter must not matter
+        let mut tc_query: Option<String> = None;
+        if i % 4 == 0 {
+            let (tc, low) = *r.pick(&[('\u{1C5}', '\u{1C6}'), ('\u{1C8}', '\u{1C9}'), ('\u{1CB}', '\u{1CC}'), ('\u{1F2}', '\u{1F3}')]);
+            let w: String = (0..r.range(1, 5)).map(|_| *r.pick(&v.letters)).collect();
+            let k = r.below(scn.recs.len());
+            scn.recs[k].1 = format!("{}{} {}", low, w, scn.recs[k].1);
+            tc_query = Some(format!("{}{}", tc, w));
+        }
         let st = scn.build();
         let t0 = r.pick(&scn.recs).1.clone();
-        let q0 = query_for(&v, r, &t0);
+        let q0 = match tc_query { Some(q) => q, None => query_for(&v, r, &t0) };
         // precomposed base query without free-standing combining marks
         let q: String = { let cs: Vec<char> = q0.chars().collect(); lang.unicode_compose(&cs).unwrap_or(cs).into_iter().filter(|c| !('\u{300}'..='\u{36f}').contains(c)).collect() };
         let base = search_results(&st, &q);
